@@ -143,11 +143,12 @@ class HSeq:
     """List with symbolic length: elements arr[lo..hi).  ``sort`` is the z3 element sort; ``wrap`` tells how to
     present an element (None, 'str', 'ref:<cls>' ...)."""
 
-    def __init__(self, arr, lo, hi, elem="Real"):
+    def __init__(self, arr, lo, hi, elem="Real", nd=False):
         self.arr = arr
         self.lo = lo
         self.hi = hi
         self.elem = elem
+        self.nd = nd          # True: a 1-D numpy array (element-wise arithmetic); False: a Python list
 
 
 class HDict:
@@ -337,8 +338,10 @@ def arith(op, a, b):
         raise Unsupported("real modulo")
     if op == "**":
         if isinstance(b, int) and 0 <= b <= 4:
-            r = z3.IntVal(1) if za.sort() == INT else z3.RealVal(1)
-            for _ in range(b):
+            if b == 0:
+                return z3.IntVal(1) if za.sort() == INT else z3.RealVal(1)
+            r = za
+            for _ in range(b - 1):
                 r = r * za
             return r
         raise Unsupported("symbolic power")
